@@ -668,6 +668,27 @@ func (x *Exec) evalCall(fr *frame, st *State, n *ast.CallExpr, opts *evalOpts) V
 			return Sc{T: mkOr(bools...)}
 		}
 		return acc
+	case "arr":
+		// arr(s): the SMT array holding the elements of a slice of scalars (element i of s is arr(s)[off(s)+i])
+		sl, ok := arg(0).(Slc)
+		if !ok || sl.Nil {
+			bail("arr(s): s must be a non-nil slice")
+		}
+		bg, ok := x.readPath(x.contents(st, sl.Obj), sl.Path).(Big)
+		if !ok {
+			bail("arr(s): not a large array")
+		}
+		leaf, ok := bg.Elem.(Sc)
+		if !ok {
+			bail("arr(s): elements are not scalars")
+		}
+		return leaf
+	case "off":
+		sl, ok := arg(0).(Slc)
+		if !ok {
+			bail("off(s): s must be a slice")
+		}
+		return Sc{T: sl.Off, Signed: true}
 	case "bit":
 		// bit(bb, i): bit i of bb; with a constant index this is an extract (keeps terms syntactically small)
 		bbv := arg(0)
